@@ -16,6 +16,20 @@
 //!   --big N        seeded random diagrams with 9..16 spiders (isomorphism only, no denotation)
 //!   --named        a fixed list of small diagrams x every scalar of the catalogue
 //!   --dir <path>   where the `file` round trip writes (default <out>_files)
+//!   --api N        audit item #24: the conversion API with caller-chosen options and documents of OTHER writers.
+//!                  Groups of ~25 events under a reset with the empty diagram:
+//!                    phase_dec    JsonPhase::to_phase on phase texts as pyzx & co. write them ("3pi/4", "3*pi/4", "-pi",
+//!                                 "π/2", "\\pi", "0.25", "2.5e-1*pi", "~1/3", ...).  The text is RENDERED by this file from a
+//!                                 SHAPE record (sign, numerator, pi, denominator | mantissa, exponent); the shape is
+//!                                 logged and spec/JsonG.tla gives its value (PhShapeVal), the independent reader
+//!                                 read_phase() re-reads the text as a cross-check of this file's two halves.
+//!                    phase_enc    JsonPhase::from_phase(p, PhaseOptions { caller-chosen }) and to_phase of the result
+//!                    scalar_conv  JsonScalar::from(&s) / from(s), Scalar4::try_from(&js) / try_from(js): all four pairings
+//!                    scalar_dec   hand-written scalar documents: power2, foreign phase texts, floatfactor absent / 1.0 /
+//!                                 other, phasenodes, is_zero, is_unknown, JsonScalar::unknown()
+//!                  and N/2 (at least 20) diagrams written by THIS file in the shapes other writers use (event `foreign`):
+//!                  hadamard-typed edges, foreign phase texts, boolean input/output flags, missing annotations,
+//!                  arbitrary names, parallel edges, virtual nodes joined to each other; decoded with decode_graph.
 
 use crate::absg::{abs_ext, build, sc_exact};
 use crate::eng_tensor::exact_to_c;
@@ -177,30 +191,71 @@ fn decorate(a: &Value, r: &mut StdRng, d: &Deco) -> Value {
 // the independent reader: emitted text -> abstract document
 // ---------------------------------------------------------------------------------------------
 
-/// "3*pi/4", "-pi/2", "pi", "7/4", "0", "~5*pi/13" -> (n, d); "" -> None
+/// The independent reader of phase texts: "3*pi/4", "-pi/2", "pi", "7/4", "0", "~5*pi/13", "3pi/4", "π/2", "\\pi",
+/// "0.25", "2.5e-1*pi" -> (n, d) (not reduced); "" -> None.  Own grammar, own decimal arithmetic (no floats):
+///   text := ["~"] [sign] [number] ["*"] [pi] ["*"] [number'] ["/" integer]      (exactly one number or a pi)
 fn read_phase(s: &str) -> Result<Option<(i64, i64)>, String> {
-    let t: String = s.chars().filter(|c| !c.is_whitespace() && *c != '~').collect();
+    let t: String = s.chars().filter(|c| !c.is_whitespace() && *c != '~').collect::<String>().to_lowercase();
     if t.is_empty() {
         return Ok(None);
     }
-    let (np, den) = match t.split_once('/') {
-        Some((a, b)) => (a.to_string(), b.parse::<i64>().map_err(|_| format!("denominator of {s}"))?),
-        None => (t.clone(), 1),
-    };
-    let num = if let Some(c) = np.strip_suffix("pi") {
-        let c = c.trim_end_matches('*');
-        match c {
-            "" => 1,
-            "-" => -1,
-            _ => c.parse::<i64>().map_err(|_| format!("numerator of {s}"))?,
+    let t = t.replace("\\pi", "P").replace("pi", "P").replace('π', "P");
+    let haspi = t.contains('P');
+    let (left, den) = match t.split_once('/') {
+        Some((a, b)) => {
+            let b: String = b.chars().filter(|c| *c != 'P' && *c != '*').collect();
+            (a.to_string(), b.parse::<i64>().map_err(|_| format!("denominator of {s}"))?)
         }
-    } else {
-        np.parse::<i64>().map_err(|_| format!("numerator of {s}"))?
+        None => (t.clone(), 1),
     };
     if den <= 0 {
         return Err(format!("denominator of {s}"));
     }
-    Ok(Some((num, den)))
+    let num: String = left.chars().filter(|c| *c != 'P' && *c != '*').collect();
+    let (n, d) = match num.as_str() {
+        "" | "+" if haspi => (1, 1),
+        "-" if haspi => (-1, 1),
+        _ => read_decimal(&num).ok_or(format!("numerator of {s}"))?,
+    };
+    let d2 = d.checked_mul(den).ok_or("overflow")?;
+    // lowest terms (a decimal such as 107421875.0e-8 would otherwise not fit the trace's small integers)
+    let g = {
+        let (mut a, mut b) = (n.abs(), d2);
+        while b != 0 {
+            (a, b) = (b, a % b);
+        }
+        a.max(1)
+    };
+    Ok(Some((n / g, d2 / g)))
+}
+
+/// [sign] digits [. digits] [e [sign] digits] -> (n, 10^k), exactly
+fn read_decimal(x: &str) -> Option<(i64, i64)> {
+    let (neg, body) = match x.strip_prefix('-') {
+        Some(r) => (true, r),
+        None => (false, x.strip_prefix('+').unwrap_or(x)),
+    };
+    let (mant, exp) = match body.split_once('e') {
+        Some((m, e)) => (m, e.parse::<i32>().ok()?),
+        None => (body, 0),
+    };
+    let (ip, fp) = mant.split_once('.').unwrap_or((mant, ""));
+    if ip.is_empty() && fp.is_empty() || !ip.chars().chain(fp.chars()).all(|c| c.is_ascii_digit()) {
+        return None;
+    }
+    let digits = format!("{ip}{fp}");
+    let mut n: i64 = digits.parse().ok()?;
+    let mut k = exp - fp.len() as i32; // value = n * 10^k
+    let mut d: i64 = 1;
+    while k > 0 {
+        n = n.checked_mul(10)?;
+        k -= 1;
+    }
+    while k < 0 {
+        d = d.checked_mul(10)?;
+        k += 1;
+    }
+    Some((if neg { -n } else { n }, d))
 }
 
 fn small_pair(p: Option<(i64, i64)>) -> Result<Value, String> {
@@ -236,6 +291,9 @@ fn io_index(ann: &Value, key: &str) -> Result<i64, String> {
     match ann.get(key) {
         None => Ok(-1),
         Some(Value::Number(n)) => n.as_i64().filter(|x| *x >= 0 && *x < 1 << 20).ok_or(format!("{key} index")),
+        // older pyzx: a flag "this wire is an input"; unambiguous only with a single such wire, which is all the
+        // foreign-document generator below writes
+        Some(Value::Bool(b)) => Ok(if *b { 0 } else { -1 }),
         Some(_) => Err(format!("{key} is not a number")),
     }
 }
@@ -502,6 +560,684 @@ fn named() -> Vec<Value> {
     ]
 }
 
+// ---------------------------------------------------------------------------------------------
+// --api: caller-chosen options and documents of other writers (audit #24)
+// ---------------------------------------------------------------------------------------------
+
+use quizx::json::{JsonPhase, JsonScalar, PhaseOptions};
+use quizx::phase::Phase;
+
+/// what a phase text is made of; spec/JsonG.tla PhShapeVal gives its value
+#[derive(Clone, Debug)]
+enum Shape {
+    Empty,
+    /// [-] [num] [pi] [/ den]   (num or pi present)
+    Frac { neg: bool, num: Option<i64>, pi: bool, den: Option<i64> },
+    /// [-] mant * 10^exp10 [pi]
+    Dec { neg: bool, mant: i64, exp10: i32, pi: bool },
+}
+
+fn shape_json(sh: &Shape) -> Value {
+    match sh {
+        Shape::Empty => json!({"kind": "empty", "neg": false, "hasnum": false, "num": 0, "pi": false, "hasden": false, "den": 1, "mant": 0, "exp10": 0}),
+        Shape::Frac { neg, num, pi, den } => json!({"kind": "frac", "neg": neg, "hasnum": num.is_some(), "num": num.unwrap_or(0), "pi": pi,
+                                                    "hasden": den.is_some(), "den": den.unwrap_or(1), "mant": 0, "exp10": 0}),
+        Shape::Dec { neg, mant, exp10, pi } => json!({"kind": "dec", "neg": neg, "hasnum": true, "num": 0, "pi": pi, "hasden": false, "den": 1,
+                                                      "mant": mant, "exp10": exp10}),
+    }
+}
+
+const PI_SPELLINGS: [&str; 6] = ["pi", "PI", "Pi", "π", "\\pi", "pi"];
+
+/// one of the spellings other writers use for the shape
+fn render(sh: &Shape, r: &mut StdRng) -> String {
+    let sp = |r: &mut StdRng| if r.random_bool(0.15) { " " } else { "" };
+    let tilde = if r.random_bool(0.1) { "~" } else { "" };
+    match sh {
+        Shape::Empty => String::new(),
+        Shape::Frac { neg, num, pi, den } => {
+            let sign = if *neg { "-" } else { "" };
+            let pis = PI_SPELLINGS[r.random_range(0..PI_SPELLINGS.len())];
+            let dens = den.map(|d| format!("{}/{}{}", sp(r), sp(r), d)).unwrap_or_default();
+            match (num, pi) {
+                (None, _) => format!("{tilde}{sign}{pis}{dens}"),
+                (Some(n), false) => format!("{tilde}{sign}{n}{dens}"),
+                (Some(n), true) => match r.random_range(0..5) {
+                    0 => format!("{tilde}{sign}{n}*{pis}{dens}"),                 // 3*pi/4   (quizx, pyzx)
+                    1 => format!("{tilde}{sign}{n}{pis}{dens}"),                  // 3pi/4
+                    2 => format!("{tilde}{sign}{n}{}*{}{pis}{dens}", sp(r), sp(r)), // 3 * pi / 4
+                    3 if den.is_some() => format!("{tilde}{sign}{n}{dens}{}*{}{pis}", sp(r), sp(r)), // 3/4 * pi
+                    _ => format!("{tilde}{sign}{n}{dens}{pis}").replace("/ ", "/"),  // 3/4pi (or 3pi)
+                },
+            }
+        }
+        Shape::Dec { neg, mant, exp10, pi } => {
+            let sign = if *neg { "-" } else { "" };
+            let digits = mant.to_string();
+            // mant * 10^exp10 as a decimal literal, plain or with an exponent
+            let lit = if *exp10 >= 0 {
+                if r.random_bool(0.5) { format!("{digits}{}.0", "0".repeat(*exp10 as usize)) } else { format!("{digits}.0e{exp10}") }
+            } else {
+                let k = (-*exp10) as usize;
+                match r.random_range(0..3) {
+                    0 => format!("{digits}.0e-{k}"),
+                    1 if digits.len() > 1 => format!("{}.{}E-{}", &digits[..1], &digits[1..], k - (digits.len() - 1).min(k)).replace("E-0", "e0"),
+                    _ => {
+                        if digits.len() > k {
+                            format!("{}.{}", &digits[..digits.len() - k], &digits[digits.len() - k..])
+                        } else {
+                            format!("0.{}{}", "0".repeat(k - digits.len()), digits)
+                        }
+                    }
+                }
+            };
+            let pis = if *pi { format!("{}{}", ["*", "", " * "][r.random_range(0..3)], PI_SPELLINGS[r.random_range(0..PI_SPELLINGS.len())]) } else { String::new() };
+            format!("{tilde}{sign}{lit}{pis}")
+        }
+    }
+}
+
+/// a shape whose value is n/d (frac: possibly unreduced, out of (-1, 1]); None for `dec` if n/d has no short decimal
+fn shape_for(n: i64, d: i64, dec: bool, r: &mut StdRng) -> Option<Shape> {
+    let neg = n < 0;
+    let n = n.abs();
+    if dec {
+        // n/d = mant / 10^k
+        let mut k = 0i32;
+        let (mut num, mut den) = (n, d);
+        while den != 1 && k < 8 {
+            num = num.checked_mul(10)?;
+            let g = gcd(num, den);
+            num /= g;
+            den /= g;
+            k += 1;
+        }
+        if den != 1 || num >= 1_000_000_000 {
+            return None;
+        }
+        return Some(Shape::Dec { neg, mant: num, exp10: -k, pi: r.random_bool(0.4) });
+    }
+    let pi = r.random_bool(0.7);
+    let num = if n == 1 && pi && r.random_bool(0.7) { None } else { Some(n) };
+    let den = if d == 1 && r.random_bool(0.8) { None } else { Some(d) };
+    Some(Shape::Frac { neg, num, pi, den })
+}
+
+fn gcd(a: i64, b: i64) -> i64 {
+    if b == 0 { a.abs() } else { gcd(b, a % b) }
+}
+
+fn ascii_text(s: &str) -> String {
+    s.replace('π', "<PI>").replace('\\', "<BSL>").replace('"', "'")
+}
+
+fn jphase(text: &str) -> JsonPhase {
+    serde_json::from_value::<JsonPhase>(json!(text)).expect("JsonPhase is a transparent string")
+}
+
+fn jphase_text(p: &JsonPhase) -> String {
+    serde_json::to_value(p).ok().and_then(|v| v.as_str().map(|x| x.to_string())).unwrap_or_default()
+}
+
+/// (res, ret) of to_phase
+fn decode_phase(jp: &JsonPhase) -> (&'static str, Value) {
+    match guarded(|| jp.to_phase()) {
+        Err(_) => ("panic", json!([0, 0])),
+        Ok(Err(_)) => ("err", json!([0, 0])),
+        Ok(Ok(None)) => ("none", json!([0, 0])),
+        Ok(Ok(Some(p))) => {
+            let q = p.to_rational();
+            if q.numer().abs() < (1 << 30) && *q.denom() < (1 << 30) {
+                ("ok", json!([*q.numer(), *q.denom()]))
+            } else {
+                ("ok_big", json!([0, 0]))
+            }
+        }
+    }
+}
+
+fn reader_json(text: &str) -> (Value, bool) {
+    match read_phase(text).and_then(small_pair) {
+        Ok(v) => (v, true),
+        Err(_) => (json!([0, 0]), false),
+    }
+}
+
+fn phase_dec_event(sh: &Shape, r: &mut StdRng) -> Value {
+    let text = render(sh, r);
+    let (res, ret) = decode_phase(&jphase(&text));
+    let (reader, reader_ok) = reader_json(&text);
+    json!({"k": "phase_dec", "text": ascii_text(&text), "sh": shape_json(sh), "res": res, "ret": ret, "reader": reader, "reader_ok": reader_ok,
+           "tags": ["api=phase_dec"]})
+}
+
+/// texts without a shape: recorded, never judged (no rational is denoted, or not unambiguously)
+const RAW_TEXTS: [&str; 14] = ["-", "+", "*", "1/0", "pi/0", "abc", "1/2/3", "--1", "+1/2", "1e400", "nan", "inf", "1/-2", "0x10"];
+
+fn phase_enc_event(n: i64, d: i64, r: &mut StdRng) -> Value {
+    let p = Phase::new(num::Rational64::new(n, d));
+    let pq = p.to_rational();
+    let ign: Option<(i64, i64)> = match r.random_range(0..6) {
+        0 => None,
+        1 => Some((0, 1)),
+        2 => Some((1, 1)),
+        3 | 4 => Some((*pq.numer(), *pq.denom())),
+        _ => Some((r.random_range(-3..=4), [1i64, 2, 4, 3][r.random_range(0..4)])),
+    };
+    let limit: Option<i64> = [None, Some(256), Some(256), Some(2), Some(3), Some(4), Some(8), Some(16), Some(100), Some(255), Some(257), Some(1000)][r.random_range(0..12)];
+    let opts = PhaseOptions {
+        ignore_value: ign.map(|(a, b)| Phase::new(num::Rational64::new(a, b))),
+        ignore_approx: r.random_bool(0.5),
+        ignore_pi: r.random_bool(0.5),
+        limit_denom: limit,
+    };
+    let oj = json!({"has_ign": ign.is_some(), "ign": ign.map(|(a, b)| json!([a, b])).unwrap_or(json!([0, 1])), "ignore_approx": opts.ignore_approx,
+                    "ignore_pi": opts.ignore_pi, "limit": limit.unwrap_or(0)});
+    let head = json!({"k": "phase_enc", "p": [*pq.numer(), *pq.denom()], "opts": oj, "tags": ["api=phase_enc"]});
+    let with = |extra: Value| {
+        let mut e = head.clone();
+        for (k, v) in extra.as_object().unwrap() {
+            e[k.as_str()] = v.clone();
+        }
+        e
+    };
+    match guarded(|| JsonPhase::from_phase(p, opts)) {
+        Err(msg) => with(json!({"res": "panic", "msg": msg})),
+        Ok(jp) => {
+            let text = jphase_text(&jp);
+            let (doc, doc_ok) = reader_json(&text);
+            let (bres, back) = decode_phase(&jp);
+            with(json!({"res": "ok", "text": ascii_text(&text), "doc": doc, "doc_ok": doc_ok, "tilde": text.contains('~'),
+                        "haspi": text.contains("pi") || text.contains('π'), "back_res": bres, "back": back}))
+        }
+    }
+}
+
+/// scalar fields of a JsonScalar text, read by this file (phasenodes / is_unknown included)
+fn project_scalar_ext(text: &str) -> Result<(Value, Complex<f64>, bool), String> {
+    let j: Value = serde_json::from_str(text).map_err(|e| format!("scalar is not JSON: {e}"))?;
+    let power2 = j.get("power2").and_then(|p| p.as_i64()).unwrap_or(0);
+    if power2.abs() >= 1 << 20 {
+        return Err("power2 too large".into());
+    }
+    let ph = read_phase(j.get("phase").and_then(|p| p.as_str()).unwrap_or(""))?;
+    let is_zero = j.get("is_zero").and_then(|p| p.as_bool()).unwrap_or(false);
+    let is_unknown = j.get("is_unknown").and_then(|p| p.as_bool()).unwrap_or(false);
+    let (ff, ffv) = match j.get("floatfactor") {
+        None => ("absent", 1.0),
+        Some(f) => {
+            let f = f.as_f64().ok_or("floatfactor is not a number")?;
+            if f == 1.0 { ("one", 1.0) } else { ("other", f) }
+        }
+    };
+    let mut nodes = vec![];
+    let mut val = Complex::from_polar(ffv * 2f64.powf(power2 as f64 / 2.0), ph.map(|(n, d)| n as f64 / d as f64).unwrap_or(0.0) * std::f64::consts::PI);
+    for pn in j.get("phasenodes").and_then(|p| p.as_array()).cloned().unwrap_or_default() {
+        let q = read_phase(pn.as_str().unwrap_or(""))?;
+        nodes.push(small_pair(q)?);
+        let ang = q.map(|(n, d)| n as f64 / d as f64).unwrap_or(0.0) * std::f64::consts::PI;
+        val *= Complex::new(1.0, 0.0) + Complex::from_polar(1.0, ang);
+    }
+    if is_zero {
+        val = Complex::new(0.0, 0.0);
+    }
+    // every phase a multiple of pi/4 and no float factor: the value is an element of the ring
+    let pi4 = |q: &Option<(i64, i64)>| q.map(|(n, d)| (4 * n) % d == 0).unwrap_or(true);
+    let exact_doc = ff != "other" && pi4(&ph) && j.get("phasenodes").and_then(|p| p.as_array()).map(|a| a.iter().all(|x| pi4(&read_phase(x.as_str().unwrap_or("")).unwrap_or(None)))).unwrap_or(true);
+    let phase = if exact_doc { small_pair(ph)? } else { json!([0, 0]) };
+    let nodes = if exact_doc { nodes } else { vec![] };
+    Ok((json!({"present": true, "power2": power2, "phase": phase, "ff": ff, "is_zero": is_zero, "is_unknown": is_unknown, "phasenodes": nodes}), val, exact_doc))
+}
+
+fn scalar_post(s: &Scalar4) -> (Value, bool, bool) {
+    let j = crate::absg::sc_json(s);
+    let big = j.is_string();
+    (if big { json!([0, 0, 0, 0, 0]) } else { j }, big, crate::absg::sc_is_approx(s))
+}
+
+/// JsonScalar::from(&s) | from(s)  x  Scalar4::try_from(&js) | try_from(js)
+fn scalar_conv_events(sc: [i64; 5]) -> Vec<Value> {
+    let s = Scalar4::new([sc[0], sc[1], sc[2], sc[3]], sc[4] as i32);
+    let want = exact_to_c(&s).expect("catalogue scalars are small");
+    let mut out = vec![];
+    for enc in ["ref", "owned"] {
+        for dec in ["ref", "owned"] {
+            let head = json!({"k": "scalar_conv", "enc": enc, "dec": dec, "pre_sc": sc, "tags": ["api=scalar_conv", format!("sc={}", sc_class(&sc))]});
+            let with = |extra: Value| {
+                let mut e = head.clone();
+                for (k, v) in extra.as_object().unwrap() {
+                    e[k.as_str()] = v.clone();
+                }
+                e
+            };
+            let js = match guarded(|| if enc == "ref" { JsonScalar::from(&s) } else { JsonScalar::from(s) }) {
+                Ok(js) => js,
+                Err(msg) => {
+                    out.push(with(json!({"res": "panic", "msg": msg})));
+                    continue;
+                }
+            };
+            let text = serde_json::to_string(&js).unwrap_or_default();
+            let (doc, docval, _) = match project_scalar_ext(&text) {
+                Ok(x) => x,
+                Err(m) => {
+                    out.push(with(json!({"res": "unreadable", "msg": clean(&m)})));
+                    continue;
+                }
+            };
+            let back = guarded(|| if dec == "ref" { Scalar4::try_from(&js) } else { Scalar4::try_from(js.clone()) });
+            match back {
+                Err(msg) => out.push(with(json!({"res": "panic", "msg": msg, "doc": doc}))),
+                Ok(Err(e)) => out.push(with(json!({"res": "decode_err", "msg": clean(&format!("{e}")), "doc": doc}))),
+                Ok(Ok(s2)) => {
+                    let (post, big, sca) = scalar_post(&s2);
+                    let kept = matches!((sc_exact(&s), sc_exact(&s2)), (Some(a), Some(b)) if a == b);
+                    out.push(with(json!({"res": "ok", "doc": doc, "post_sc": post, "sc_big": big, "post_sca": sca, "scalar_exact_kept": kept,
+                                         "scalar_close": rel_err(want, raw_to_c(&s2)) <= 1e-9, "doc_scalar_close": rel_err(want, docval) <= 1e-9})));
+                }
+            }
+        }
+    }
+    out
+}
+
+/// a hand-written scalar document (pyzx's Scalar.to_json shapes) and its decoding
+fn scalar_dec_event(r: &mut StdRng, idx: usize) -> Value {
+    let pi4_phase = |r: &mut StdRng| -> String {
+        let k: i64 = r.random_range(-7..=8);
+        let g = gcd(k.abs(), 4).max(1);
+        let sh = shape_for(k / g, 4 / g, r.random_bool(0.2), r).unwrap_or(Shape::Frac { neg: k < 0, num: Some(k.abs() / g), pi: false, den: Some(4 / g) });
+        // the scalar's own phase field is written without pi by quizx and pyzx, with pi by others
+        render(&sh, r)
+    };
+    let any_phase = |r: &mut StdRng| -> String {
+        let d = [3i64, 5, 8, 16, 7][r.random_range(0..5)];
+        render(&Shape::Frac { neg: r.random_bool(0.3), num: Some(r.random_range(1..2 * d)), pi: r.random_bool(0.5), den: Some(d) }, r)
+    };
+    let mut o = serde_json::Map::new();
+    let exactish = r.random_bool(0.75);
+    if r.random_bool(0.8) {
+        o.insert("power2".into(), json!(r.random_range(-6..=6)));
+    }
+    if r.random_bool(0.85) {
+        o.insert("phase".into(), json!(if exactish { pi4_phase(r) } else { any_phase(r) }));
+    }
+    match r.random_range(0..6) {
+        0 | 1 => {}
+        2 | 3 => {
+            o.insert("floatfactor".into(), json!(1.0));
+        }
+        _ if !exactish => {
+            o.insert("floatfactor".into(), json!([0.5, 3.0, 1.25, 0.1, 7.0][r.random_range(0..5)]));
+        }
+        _ => {}
+    }
+    if r.random_bool(0.45) {
+        let k = r.random_range(1..=3);
+        let nodes: Vec<String> = (0..k).map(|_| if exactish { pi4_phase(r) } else { any_phase(r) }).collect();
+        o.insert("phasenodes".into(), json!(nodes));
+    }
+    if r.random_bool(0.08) {
+        o.insert("is_zero".into(), json!(true));
+    }
+    let unknown_ctor = idx % 17 == 5;
+    if idx % 17 == 11 {
+        o.insert("is_unknown".into(), json!(true));
+    }
+    let text = if unknown_ctor { serde_json::to_string(&JsonScalar::unknown()).unwrap_or_default() } else { Value::Object(o).to_string() };
+    let via = if idx % 2 == 0 { "ref" } else { "owned" };
+    let head = json!({"k": "scalar_dec", "via": via, "text": ascii_text(&text), "unknown_ctor": unknown_ctor, "tags": ["api=scalar_dec"]});
+    let with = |extra: Value| {
+        let mut e = head.clone();
+        for (k, v) in extra.as_object().unwrap() {
+            e[k.as_str()] = v.clone();
+        }
+        e
+    };
+    let (doc, docval, exact_doc) = match project_scalar_ext(&text) {
+        Ok(x) => x,
+        Err(m) => return with(json!({"res": "unreadable", "msg": clean(&m)})),
+    };
+    let scale = {
+        let j: Value = serde_json::from_str(&text).unwrap_or(json!({}));
+        let ff = j.get("floatfactor").and_then(|f| f.as_f64()).unwrap_or(1.0).abs().max(1.0);
+        let nn = j.get("phasenodes").and_then(|p| p.as_array()).map(|a| a.len()).unwrap_or(0);
+        ff * 2f64.powf(doc["power2"].as_i64().unwrap_or(0) as f64 / 2.0) * 2f64.powi(nn as i32)
+    };
+    let js: JsonScalar = match serde_json::from_str(&text) {
+        Ok(js) => js,
+        Err(e) => return with(json!({"res": "decode_err", "msg": clean(&format!("{e}")), "doc": doc, "exact_doc": exact_doc})),
+    };
+    match guarded(|| if via == "ref" { Scalar4::try_from(&js) } else { Scalar4::try_from(js.clone()) }) {
+        Err(msg) => with(json!({"res": "panic", "msg": msg, "doc": doc, "exact_doc": exact_doc})),
+        Ok(Err(e)) => with(json!({"res": "decode_err", "msg": clean(&format!("{e}")), "doc": doc, "exact_doc": exact_doc})),
+        Ok(Ok(s2)) => {
+            let (post, big, sca) = scalar_post(&s2);
+            // floating point (outside TLA+): the decoded scalar against this file's own evaluation of the fields, to
+            // 1e-9 of the SCALE of the document (the product of the magnitudes of its factors: a phase node 1 + e^{i pi}
+            // makes the value 0, which has no relative error)
+            let close = (docval - raw_to_c(&s2)).norm() <= 1e-9 * scale;
+            with(json!({"res": "ok", "doc": doc, "exact_doc": exact_doc, "post_sc": post, "sc_big": big, "post_sca": sca, "close": close}))
+        }
+    }
+}
+
+// ---- whole documents in the shapes of other writers
+
+struct Feat {
+    typed_h: bool,
+    par: bool,
+    hh: bool,
+    boolio: bool,
+    nocoord: bool,
+}
+
+/// sqrt2^p e^{i k pi/4} as [a,b,c,d,e] (the catalogue's class 1, with p and k kept)
+fn exact_scalar(p: i32, k: usize) -> [i64; 5] {
+    let (mut c, e) = if p.rem_euclid(2) == 0 { ([1i64, 0, 0, 0], p / 2) } else { ([0i64, 1, 0, -1], (p - 1) / 2) };
+    for _ in 0..k {
+        c = [-c[3], c[0], c[1], c[2]];
+    }
+    [c[0], c[1], c[2], c[3], e as i64]
+}
+
+/// the diagram `a` (decorated, scalar one) as a document: returns the text, the parallel edges added (in a's vertex
+/// names) and the scalar [a,b,c,d,e] the scalar field denotes
+fn write_foreign(a: &Value, r: &mut StdRng, f: &Feat) -> (String, Vec<Value>, [i64; 5], bool) {
+    let vs = a["v"].as_array().unwrap();
+    let mut nums: Vec<usize> = (0..3 * vs.len() + 3).collect();
+    for i in (1..nums.len()).rev() {
+        nums.swap(i, r.random_range(0..=i));
+    }
+    // a virtual-virtual edge makes the decoder invent the name "v<number of vertices>": keep clear of it
+    let (np, wp) = if f.hh { ("n", "w") } else { [("n", "w"), ("v", "b"), ("v", "b")][r.random_range(0..3)] };
+    let mut name = std::collections::BTreeMap::new();
+    let mut ty = std::collections::BTreeMap::new();
+    let mut crd = std::collections::BTreeMap::new();
+    for (i, v) in vs.iter().enumerate() {
+        let id = v["id"].as_u64().unwrap();
+        let b = v["ty"] == "B";
+        name.insert(id, format!("{}{}", if b { wp } else { np }, nums[i]));
+        ty.insert(id, v["ty"].as_str().unwrap().to_string());
+        crd.insert(id, (v.get("r").and_then(|x| x.as_f64()).unwrap_or(0.0), v.get("q").and_then(|x| x.as_f64()).unwrap_or(0.0)));
+    }
+    let ins: Vec<u64> = a["ins"].as_array().unwrap().iter().map(|x| x.as_u64().unwrap()).collect();
+    let outs: Vec<u64> = a["outs"].as_array().unwrap().iter().map(|x| x.as_u64().unwrap()).collect();
+    let mut wires = serde_json::Map::new();
+    let mut nodes = serde_json::Map::new();
+    let mut edges = serde_json::Map::new();
+    let coord_ann = |c: (f64, f64)| if f.nocoord { json!({}) } else { json!({"coord": [c.0, c.1]}) };
+    for v in vs {
+        let id = v["id"].as_u64().unwrap();
+        let mut ann = coord_ann(crd[&id]);
+        if v["ty"] == "B" {
+            if r.random_bool(0.7) {
+                ann["boundary"] = json!(true);
+            }
+            let flag = |pos: Option<usize>, r: &mut StdRng| -> Option<Value> {
+                match pos {
+                    Some(_) if f.boolio => Some(json!(true)),
+                    Some(i) => Some(json!(i)),
+                    None if f.boolio && r.random_bool(0.5) => Some(json!(false)),
+                    None => None,
+                }
+            };
+            if let Some(x) = flag(ins.iter().position(|&i| i == id), r) {
+                ann["input"] = x;
+            }
+            if let Some(x) = flag(outs.iter().position(|&i| i == id), r) {
+                ann["output"] = x;
+            }
+            wires.insert(name[&id].clone(), json!({"annotation": ann}));
+        } else {
+            let t = match v["ty"].as_str().unwrap() {
+                "Hbox" => "hadamard",
+                x => x,
+            };
+            let mut data = json!({"type": t});
+            let (n, d) = (v["ph"][0].as_i64().unwrap(), v["ph"][1].as_i64().unwrap());
+            let dflt = if t == "hadamard" { (1, 1) } else { (0, 1) };
+            if (n, d) != dflt || r.random_bool(0.3) {
+                // an equivalent spelling: unreduced, shifted by a full turn, decimal where there is one
+                let m = [1i64, 1, 2, 3][r.random_range(0..4)];
+                let (n2, d2) = if d * m <= 256 { ((n + [0, 0, 2 * d, -2 * d][r.random_range(0..4)]) * m, d * m) } else { (n, d) };
+                let sh = shape_for(n2, d2, r.random_bool(0.25), r).or_else(|| shape_for(n2, d2, false, r)).unwrap();
+                data["value"] = json!(render(&sh, r));
+            } else if r.random_bool(0.3) {
+                data["value"] = json!("");
+            }
+            if t == "hadamard" && r.random_bool(0.5) {
+                data["is_edge"] = json!("false");
+            }
+            nodes.insert(name[&id].clone(), json!({"annotation": ann, "data": data}));
+        }
+    }
+    let mut ne = 0usize;
+    let mut nh = 0usize;
+    let mut edge = |edges: &mut serde_json::Map<String, Value>, s: &str, t: &str, ty: Option<&str>, r: &mut StdRng| {
+        let (s, t) = if r.random_bool(0.5) { (s, t) } else { (t, s) };
+        let mut e = json!({"src": s, "tgt": t});
+        if let Some(x) = ty {
+            e["type"] = json!(x);
+        }
+        edges.insert(format!("e{ne}"), e);
+        ne += 1;
+    };
+    let mid = |x: (f64, f64), y: (f64, f64)| ((x.0 + y.0) / 2.0, (x.1 + y.1) / 2.0);
+    let mut hnode = |nodes: &mut serde_json::Map<String, Value>, c: (f64, f64)| -> String {
+        let nm = format!("h{nh}");
+        nh += 1;
+        nodes.insert(nm.clone(), json!({"annotation": {"coord": [c.0, c.1]}, "data": {"type": "hadamard", "is_edge": "true"}}));
+        nm
+    };
+    let es = a["e"].as_array().unwrap();
+    let chain_at = if f.hh && !es.is_empty() { Some(r.random_range(0..es.len())) } else { None };
+    let mut all: Vec<(u64, u64, String)> = es.iter().map(|e| (e["u"].as_u64().unwrap(), e["w"].as_u64().unwrap(), e["t"].as_str().unwrap().to_string())).collect();
+    // parallel edges between Z/X spiders (add_edge_smart fuses them)
+    let mut par = vec![];
+    if f.par {
+        let zx: Vec<u64> = ty.iter().filter(|(_, t)| *t == "Z" || *t == "X").map(|(i, _)| *i).collect();
+        if zx.len() >= 2 {
+            for _ in 0..r.random_range(1..=2) {
+                let u = zx[r.random_range(0..zx.len())];
+                let w = zx[(zx.iter().position(|x| *x == u).unwrap() + r.random_range(1..zx.len())) % zx.len()];
+                if u != w {
+                    let t = if r.random_bool(0.5) { "N" } else { "H" };
+                    par.push(json!([u, w, t]));
+                    all.push((u, w, t.to_string()));
+                }
+            }
+        }
+    }
+    for (i, (u, w, t)) in all.iter().enumerate() {
+        let (su, sw) = (name[u].clone(), name[w].clone());
+        let c = mid(crd[u], crd[w]);
+        if Some(i) == chain_at {
+            // plain wire = two Hadamards in a row, Hadamard wire = three
+            let k = if t == "N" { 2 } else { 3 };
+            let hs: Vec<String> = (0..k).map(|_| hnode(&mut nodes, c)).collect();
+            edge(&mut edges, &su, &hs[0], None, r);
+            for j in 0..k - 1 {
+                edge(&mut edges, &hs[j], &hs[j + 1], Some("simple"), r);
+            }
+            edge(&mut edges, &hs[k - 1], &sw, None, r);
+        } else if t == "N" {
+            edge(&mut edges, &su, &sw, if r.random_bool(0.5) { Some("simple") } else { None }, r);
+        } else if f.typed_h && r.random_bool(0.7) {
+            edge(&mut edges, &su, &sw, Some("hadamard"), r);
+        } else {
+            let h = hnode(&mut nodes, c);
+            edge(&mut edges, &su, &h, None, r);
+            edge(&mut edges, &h, &sw, Some("simple"), r);
+        }
+    }
+    let mut doc = json!({"wire_vertices": wires, "node_vertices": nodes, "undir_edges": edges});
+    // the scalar: none with parallel edges (the decoder REPLACES what edge fusion accumulated by the scalar field, as pyzx does)
+    let mut sc = [1i64, 0, 0, 0, 0];
+    let mut approx_ok = false;
+    if !f.par && r.random_bool(0.6) {
+        let (p, k) = (r.random_range(-8..=8), r.random_range(0..8usize));
+        sc = exact_scalar(p, k);
+        let g = gcd(k as i64, 4).max(1);
+        let sh = shape_for(k as i64 / g, 4 / g, r.random_bool(0.2), r).unwrap();
+        let mut o = json!({"power2": p, "phase": render(&sh, r)});
+        match r.random_range(0..3) {
+            0 => {}
+            1 => {
+                o["floatfactor"] = json!(1.0);
+            }
+            _ => {
+                o["phasenodes"] = json!([]);
+                o["is_zero"] = json!(false);
+            }
+        }
+        // a decimal phase goes through a float in the decoder: the result may be flagged approximate
+        approx_ok = matches!(sh, Shape::Dec { .. });
+        doc["scalar"] = json!(o.to_string());
+    } else if r.random_bool(0.3) {
+        doc["scalar"] = json!("");
+    }
+    if r.random_bool(0.3) {
+        doc["variable_types"] = json!({});
+    }
+    (doc.to_string(), par, sc, approx_ok)
+}
+
+fn foreign_event<G: GraphLike>(be: &str, text: &str, pre_sc: &Scalar4, par: &[Value], hh: bool, approx_ok: bool, tags: &[String]) -> Value {
+    let fail = |res: &str, msg: &str| json!({"k": "foreign", "via": "decode_graph", "be": be, "res": res, "msg": msg, "par": par, "hh": hh, "tags": tags});
+    let view = match project_doc(text) {
+        Ok(d) => d,
+        Err(m) => return fail("unreadable", &clean(&m)),
+    };
+    let g2: G = match attempt(|| quizx::json::decode_graph::<G>(text).map_err(|e| format!("{e}")), "decode_err") {
+        Ok(g) => g,
+        Err((res, msg)) => {
+            let mut e = fail(&res, &msg);
+            e["doc"] = view.doc;
+            return e;
+        }
+    };
+    let mut post = abs_ext(&g2);
+    post.as_object_mut().unwrap().remove("n");
+    let sc_big = post["sc"].is_string();
+    if sc_big {
+        post["sc"] = json!([0, 0, 0, 0, 0]);
+    }
+    let kept = matches!((sc_exact(pre_sc), sc_exact(g2.scalar())), (Some(a), Some(b)) if a == b);
+    json!({"k": "foreign", "via": "decode_graph", "be": be, "res": "ok", "doc": view.doc, "post": post, "sc_big": sc_big, "scalar_exact_kept": kept,
+           "approx_ok": approx_ok, "par": par, "hh": hh, "tags": tags})
+}
+
+fn record_foreign(a0: &Value, r: &mut StdRng, idx: usize, tr: &mut Tr) -> bool {
+    let nsp = a0["v"].as_array().unwrap().iter().filter(|v| v["ty"] != "B").count();
+    let one_io = a0["ins"].as_array().unwrap().len() <= 1 && a0["outs"].as_array().unwrap().len() <= 1;
+    let f = Feat {
+        typed_h: r.random_bool(0.6),
+        par: idx % 5 == 1 && nsp <= 5,
+        hh: idx % 5 == 3 && nsp <= 5,
+        boolio: one_io && r.random_bool(0.5),
+        nocoord: r.random_bool(0.15),
+    };
+    // parallel / chained documents are judged by their denotation: phases stay multiples of pi/4, no H-box
+    let d = Deco { other_phases: !f.par && !f.hh && r.random_bool(0.5), zero_coords: f.nocoord, hbox: !f.par && !f.hh && r.random_bool(0.12), sc: [1, 0, 0, 0, 0] };
+    let mut a = decorate(a0, r, &d);
+    let (text, par, sc, approx_ok) = write_foreign(&a, r, &f);
+    a["sc"] = json!(sc);
+    let gv: VecG = build(&a);
+    let mut pre = abs_ext(&gv);
+    pre.as_object_mut().unwrap().remove("n");
+    let mut tags: Vec<String> = vec!["api=foreign".into()];
+    for (on, t) in [(f.typed_h, "typed_h"), (!par.is_empty(), "parallel"), (f.hh, "hh"), (f.boolio, "boolio"), (f.nocoord, "nocoord")] {
+        if on {
+            tags.push(t.into());
+        }
+    }
+    tr.group();
+    tr.emit(json!({"k": "reset", "pre": pre}));
+    let pre_sc = *gv.scalar();
+    let hh = f.hh && !a["e"].as_array().unwrap().is_empty();
+    let e = if idx % 2 == 0 {
+        foreign_event::<VecG>("vec", &text, &pre_sc, &par, hh, approx_ok, &tags)
+    } else {
+        foreign_event::<HashG>("hash", &text, &pre_sc, &par, hh, approx_ok, &tags)
+    };
+    let ok = e["res"] == "ok";
+    tr.emit(e);
+    ok
+}
+
+fn record_api(n: usize, seed: u64, tr: &mut Tr) -> Value {
+    let mut r = gens::rng(seed ^ 0xc13a);
+    let empty = {
+        let g: VecG = build(&gens::mk(&[], &[], &[], &[], [1, 0, 0, 0, 0]));
+        let mut p = abs_ext(&g);
+        p.as_object_mut().unwrap().remove("n");
+        p
+    };
+    let mut evs: Vec<Value> = vec![];
+    // ---- phase texts: the catalogue, then random shapes
+    evs.push(phase_dec_event(&Shape::Empty, &mut r));
+    for (n_, d_) in [(1i64, 1i64), (-1, 1), (3, 4), (-3, 4), (1, 4), (7, 4), (1, 2), (-1, 2), (0, 1), (5, 3), (1, 256), (255, 256), (2, 8), (9, 4), (-9, 4)] {
+        for dec in [false, false, false, true] {
+            if let Some(sh) = shape_for(n_, d_, dec, &mut r) {
+                evs.push(phase_dec_event(&sh, &mut r));
+            }
+        }
+    }
+    for t in RAW_TEXTS {
+        let (res, ret) = decode_phase(&jphase(t));
+        evs.push(json!({"k": "phase_dec", "text": ascii_text(t), "sh": {"kind": "raw", "neg": false, "hasnum": false, "num": 0, "pi": false, "hasden": false,
+                        "den": 1, "mant": 0, "exp10": 0}, "res": res, "ret": ret, "reader": [0, 0], "reader_ok": false, "tags": ["api=phase_dec", "raw"]}));
+    }
+    const DEC_DENS: [i64; 16] = [1, 2, 4, 5, 8, 10, 16, 20, 25, 32, 40, 64, 100, 128, 200, 256];
+    for _ in 0..n {
+        let dec = r.random_bool(0.3);
+        let d = if dec { DEC_DENS[r.random_range(0..DEC_DENS.len())] } else if r.random_bool(0.5) { DENS[r.random_range(0..DENS.len())] } else if r.random_bool(0.8) { r.random_range(1..=256) } else { r.random_range(257..=3000) };
+        let nn = r.random_range(-(2 * d)..=(2 * d));
+        // out of scope on purpose now and then: a decimal that is not a small fraction
+        let sh = if dec && r.random_bool(0.1) { Some(Shape::Dec { neg: r.random_bool(0.5), mant: r.random_range(1..99_999_999), exp10: -8, pi: false }) } else { shape_for(nn, d, dec, &mut r) };
+        if let Some(sh) = sh {
+            evs.push(phase_dec_event(&sh, &mut r));
+        }
+    }
+    // ---- from_phase with caller-chosen options
+    for i in 0..n {
+        let d = if i % 3 == 0 { DENS[r.random_range(0..DENS.len())] } else if r.random_bool(0.8) { r.random_range(1..=256) } else { r.random_range(257..=2000) };
+        let nn = r.random_range(-(2 * d)..=(2 * d));
+        evs.push(phase_enc_event(nn, d, &mut r));
+    }
+    // ---- scalars
+    for i in 0..(n / 4).max(8) {
+        let class = [0usize, 1, 1, 2, 2, 3, 4, 1][i % 8];
+        evs.extend(scalar_conv_events(catalogue_scalar(&mut r, class)));
+    }
+    for i in 0..n {
+        evs.push(scalar_dec_event(&mut r, i));
+    }
+    let nev = evs.len();
+    let mut by_kind = std::collections::BTreeMap::new();
+    for (i, e) in evs.into_iter().enumerate() {
+        if i % 25 == 0 {
+            tr.group();
+            tr.emit(json!({"k": "reset", "pre": empty}));
+        }
+        *by_kind.entry(e["k"].as_str().unwrap().to_string()).or_insert(0usize) += 1;
+        tr.emit(e);
+    }
+    // ---- whole documents
+    let nf = (n / 2).max(20);
+    let cfg = RandCfg { min_sp: 0, max_sp: 6, max_b: 3, pedge: 0.4, scalars: false, ..RandCfg::any_zx() };
+    let mut ok = 0usize;
+    let named = named();
+    for i in 0..nf {
+        // parallel edges need two spiders, a chain needs an edge
+        let cfg_i = if i % 5 == 1 || i % 5 == 3 { RandCfg { min_sp: 2, max_sp: 5, pedge: 0.6, ..cfg.clone() } } else { cfg.clone() };
+        let a = if i % 9 == 8 { named[(i / 9) % named.len()].clone() } else { gens::random_diagram(&mut r, &cfg_i) };
+        ok += record_foreign(&a, &mut r, i, tr) as usize;
+    }
+    json!({"api_events": nev, "by_kind": by_kind, "foreign_docs": nf, "foreign_decoded": ok})
+}
+
 pub fn record(args: &[String], seed: u64, tr: &mut Tr) -> Value {
     let out = arg_val(args, "--out").unwrap_or_else(|| "json".into());
     let dir = arg_val(args, "--dir").unwrap_or(format!("{out}_files"));
@@ -568,7 +1304,9 @@ pub fn record(args: &[String], seed: u64, tr: &mut Tr) -> Value {
             nbig += 1;
         }
     }
+    let napi: usize = arg_num(args, "--api", 0);
+    let api = if napi > 0 { record_api(napi, seed, tr) } else { json!({}) };
     let _ = std::fs::remove_dir(&cx.dir);
-    json!({"diagrams": cx.count, "family": nfam, "random": nrand, "big": nbig, "named": nnamed, "roundtrips": cx.events,
+    json!({"api": api, "diagrams": cx.count, "family": nfam, "random": nrand, "big": nbig, "named": nnamed, "roundtrips": cx.events,
            "not_ok": cx.failures, "max_relerr_ppb_exact_class": cx.max_ppb_exact, "max_relerr_ppb_other": cx.max_ppb_inexact})
 }
